@@ -7,7 +7,10 @@
   argument handling of plugin_utf8.cpp).  Spec: BlocV/Spec/Csv.lean, BlocV/Spec/Utf8.lean.
 -/
 import BlocV.Proofs.Lemmas.Csv
+import BlocV.Model.Mod.CsvPlugin
 import BlocV.Proofs.Lemmas.Utf8
+import BlocV.Proofs.Lemmas.Utf8Ill
+import BlocV.Proofs.Lemmas.Utf8Ops
 
 namespace BlocV.C18
 open BlocV.Mod.Csv
@@ -148,6 +151,219 @@ example : deserializeNext ⟨0x2c, 0x22⟩ {} [] [0x61] = .done false [[0x61]] {
       = .done false [[0x61]] { error := true, errorPos := 2 } ∧
     deserializeNext ⟨0x2c, 0x22⟩ {} [] [0x22, 0x61] = .done true [[0x61]] {} := by decide +kernel
 
+/-! ## csv: the plugin glue (plugin_csv.cpp) -/
+
+section csvplugin
+open BlocV.Mod.CsvPlugin
+
+/-- **csv_plugin_args_total** (the `csv_args_total` of the plugin level). For EVERY parser object (any separator /
+encapsulator, any error state), EVERY state of the table variable (null table, empty table, null elements) and EVERY
+call of the method table — `serialize(T)`, `deserialize(line, T)`, `deserialize_next(line, T)` with any line (null, empty,
+ill-formed), `in_error()`, `error_pos()` — the call answers a value or the BLOC error "Invalid arguments.", and reaches a
+C++-level fault EXACTLY in the recorded region `C18.csv_next_null_last_element`: `deserialize_next` with a non-null line
+on a table whose LAST element is a null string. In particular `out.back()` on an empty vector is never reached. -/
+theorem csv_plugin_args_total (w : World) (op : Op) :
+    (Mod.CsvPlugin.step w op).2.isHazard = true ↔
+      ∃ line t, op = .deserializeNext (some line) ∧ w.tbl = some t ∧ t.getLast? = some none := by
+  cases op with
+  | serialize => cases h : w.tbl <;> simp [Mod.CsvPlugin.step, h, Res.isHazard]
+  | inError => simp [Mod.CsvPlugin.step, Res.isHazard]
+  | errorPos => simp [Mod.CsvPlugin.step, Res.isHazard]
+  | deserialize line =>
+    cases line with
+    | none => simp [Mod.CsvPlugin.step, Res.isHazard]
+    | some l =>
+      have := (csv_args_total w.cfg w.ps false [] l).2.1
+      cases h : deserialize w.cfg w.ps l with
+      | done n o p => simp [Mod.CsvPlugin.step, h, Res.isHazard]
+      | hazardEmptyBack => exact absurd h this
+  | deserializeNext line =>
+    cases line with
+    | none => simp [Mod.CsvPlugin.step, Res.isHazard]
+    | some l =>
+      cases ht : w.tbl with
+      | none => simp [Mod.CsvPlugin.step, ht, Res.isHazard]
+      | some t =>
+        cases hl : t.getLast? with
+        | none =>
+          have := (csv_args_total w.cfg w.ps true [] l).2.2
+          cases h : deserializeNext w.cfg w.ps [] l with
+          | done n o p => simp [Mod.CsvPlugin.step, ht, hl, h, Res.isHazard]
+          | hazardEmptyBack => exact absurd h this
+        | some e =>
+          cases e with
+          | none => simp [Mod.CsvPlugin.step, ht, hl, Res.isHazard]
+          | some last =>
+            have := (csv_args_total w.cfg w.ps true [last] l).2.2
+            cases h : deserializeNext w.cfg w.ps [last] l with
+            | done n o p => simp [Mod.CsvPlugin.step, ht, hl, h, Res.isHazard]
+            | hazardEmptyBack => exact absurd h this
+
+/-- the region is inhabited (`T = [a, null]`, line `x`) and null / empty arguments outside it are answered: null line →
+BLOC error, null table → BLOC error, `serialize(null table)` → null string, a null element serializes as the empty field -/
+example : (Mod.CsvPlugin.step { cfg := ⟨0x2c, 0x22⟩, tbl := some [some [0x61], none] } (.deserializeNext (some [0x78]))).2 = .hazardNullElem
+    ∧ (Mod.CsvPlugin.step { cfg := ⟨0x2c, 0x22⟩, tbl := some [some [0x61], none] } (.deserializeNext none)).2 = .err
+    ∧ (Mod.CsvPlugin.step { cfg := ⟨0x2c, 0x22⟩, tbl := none } (.deserializeNext (some [0x78]))).2 = .err
+    ∧ (Mod.CsvPlugin.step { cfg := ⟨0x2c, 0x22⟩, tbl := none } .serialize).2 = .str none
+    ∧ (Mod.CsvPlugin.step { cfg := ⟨0x2c, 0x22⟩, tbl := some [some [0x61], none] } .serialize).2 = .str (some [0x61, 0x2c])
+    ∧ (Mod.CsvPlugin.step { cfg := ⟨0x2c, 0x22⟩, tbl := some [] } (.deserializeNext (some [0x78]))) =
+        ({ cfg := ⟨0x2c, 0x22⟩, tbl := some [some [0x78]] }, .bool false) := by decide +kernel
+
+/-- **csv_plugin_next_core.** The plugin hands only the LAST field of the table to the parser (`data = [T.last]`). For a
+table without null elements `pre ++ [last]` and a non-empty line this IS the parser's `deserialize_next` on the whole table —
+same "needs more" flag, same parser state, same fields — except that on a parse error, where the parser core clears its whole
+vector, the plugin's table keeps the earlier fields `pre` (only the field being continued is lost). -/
+theorem csv_plugin_next_core (w : World) (pre : Row) (last : Field) (line : List UInt8) (hl : line ≠ [])
+    (ht : w.tbl = some (pre.map some ++ [some last])) :
+    ∃ next out ps', deserializeNext w.cfg w.ps [last] line = .done next out ps'
+      ∧ Mod.CsvPlugin.step w (.deserializeNext (some line)) = ({ w with ps := ps', tbl := some ((pre ++ out).map some) }, .bool next)
+      ∧ deserializeNext w.cfg w.ps (pre ++ [last]) line = .done next (if out = [] then [] else pre ++ out) ps' := by
+  cases line with
+  | nil => exact absurd rfl hl
+  | cons x xs =>
+    have hS := scan_addPre w.cfg pre (x :: xs).length (x :: xs) (Nat.le_refl _)
+      { out := [], value := last, first := true, encap := true }
+    simp only [addPre, List.append_nil] at hS
+    have e1 : deserializeNext w.cfg w.ps [last] (x :: xs)
+        = finish w.ps (scan w.cfg (x :: xs) { out := [], value := last, first := true, encap := true }) := by
+      simp [deserializeNext, deserializeChunk]
+    have e2 : deserializeNext w.cfg w.ps (pre ++ [last]) (x :: xs)
+        = finish w.ps (scan w.cfg (x :: xs) { out := pre, value := last, first := true, encap := true }) := by
+      simp [deserializeNext, deserializeChunk]
+    rw [e1, e2, hS]
+    generalize scan w.cfg (x :: xs) { out := [], value := last, first := true, encap := true } = S at e1 ⊢
+    have hlast : (pre.map some ++ [some last]).getLast? = some (some last) := by simp
+    cases he : S.error with
+    | true =>
+      refine ⟨false, [], { error := true, errorPos := S.pos }, by simp [finish, he], ?_, by simp [finish, he]⟩
+      simp [Mod.CsvPlugin.step, ht, hlast, e1, finish, he]
+    | false =>
+      refine ⟨S.encap, S.out ++ [S.value], w.ps, by simp [finish, he], ?_, by simp [finish, he]⟩
+      simp [Mod.CsvPlugin.step, ht, hlast, e1, finish, he]
+
+/-- hypotheses satisfiable: `T = ["a", "\"b"]`, line `c",d` completes the quoted field: `["a", "b\nc"…]` -/
+example : ([0x63, 0x22, 0x2c, 0x64] : List UInt8) ≠ []
+    ∧ (Mod.CsvPlugin.step { cfg := ⟨0x2c, 0x22⟩, tbl := some ([[0x61]].map some ++ [some [0x62]]) }
+        (.deserializeNext (some [0x63, 0x22, 0x2c, 0x64]))).1.tbl = some [some [0x61], some [0x62, 0x63], some [0x64]] := by
+  decide +kernel
+
+theorem fields_map_some (r : Row) : fields (r.map some) = r := by
+  induction r with
+  | nil => rfl
+  | cons x xs ih => simp only [fields, List.map_cons, List.map_map] at ih ⊢; rw [ih]
+
+/-- `deserialize_next` as a client of the PLUGIN sees it: the table variable holds `out`; answer = the flag and the
+    fields of the table afterwards, or `none` when the call raised an error / set the error flag -/
+def pluginNext (cfg : Cfg) (out : Row) (line : List UInt8) : BlocV.Spec.Csv.Call :=
+  match Mod.CsvPlugin.step { cfg := cfg, tbl := some (out.map some) } (.deserializeNext (some line)) with
+  | (w', .bool b) => if w'.ps.error then none else some (b, fields (w'.tbl.getD []))
+  | _ => none
+
+/-- the plugin's `deserialize_next` is, for a client, the parser's — on every table and every line -/
+theorem pluginNext_eq (cfg : Cfg) (out : Row) (line : List UInt8) : pluginNext cfg out line = callNext cfg out line := by
+  unfold pluginNext callNext
+  rcases List.eq_nil_or_concat out with rfl | ⟨pre, last, rfl⟩
+  · -- empty table: the same call
+    cases h : deserializeNext cfg {} [] line with
+    | done n o p =>
+      cases hp : p.error <;> simp [Mod.CsvPlugin.step, h, Outcome.toCall, hp, fields_map_some]
+    | hazardEmptyBack => exact absurd h (csv_args_total cfg {} true [] line).2.2
+  · simp only [List.concat_eq_append]
+    cases line with
+    | nil =>
+      have hl : (List.map some (pre ++ [last])).getLast? = some (some last) := by simp
+      simp [Mod.CsvPlugin.step, hl, deserializeNext, deserializeChunk, Outcome.toCall, List.dropLast_concat]
+      have := fields_map_some (pre ++ [last])
+      simpa using this
+    | cons x xs =>
+      obtain ⟨next, o, ps', h1, h2, h3⟩ := csv_plugin_next_core { cfg := cfg, tbl := some ((pre ++ [last]).map some) } pre last
+        (x :: xs) (by simp) (by simp)
+      simp only at h1 h2 h3
+      rw [h2, h3]
+      simp only [Outcome.toCall]
+      by_cases he : ps'.error = true
+      · simp [he]
+      · by_cases ho : o = []
+        · -- a complete or continued record always has at least one field: `o = []` only after an error
+          exfalso
+          have : deserializeNext cfg {} [last] (x :: xs) = .done next o ps' := h1
+          simp only [deserializeNext, deserializeChunk] at this
+          simp only [List.getLast?_singleton, List.dropLast_singleton] at this
+          rw [if_pos (by simp)] at this
+          simp only [finish] at this
+          split at this
+          · injection this with _ _ h; rw [← h] at he; simp at he
+          · injection this with _ h _; rw [ho] at h; simp at h
+        · simp [he, ho]
+          have := fields_map_some (pre ++ o)
+          simpa using this
+
+/-- **csv_plugin_linewise.** The line-wise client THROUGH THE PLUGIN (first line: `deserialize(line, T)`, every further
+line: `deserialize_next(line, T)` on the table variable) rebuilds every row: for `sep ≠ enc`, neither of them LF, every
+row other than the single empty field, the loop over `splitAfterLF (serialize row)` consumes ALL lines and ends with
+"record complete" and exactly the original fields in `T`. -/
+theorem csv_plugin_linewise (cfg : Cfg) (hne : cfg.sep ≠ cfg.enc) (hsep : cfg.sep ≠ LF) (henc : cfg.enc ≠ LF)
+    (row : Row) (hrow : row ≠ [[]]) :
+    RoundTripLines (serialize cfg) (callFirst cfg) (pluginNext cfg) row := by
+  have : pluginNext cfg = callNext cfg := by funext out line; exact pluginNext_eq cfg out line
+  rw [this]; exact csv_linewise cfg hne hsep henc row hrow
+
+example : (⟨0x3b, 0x27⟩ : Cfg).sep ≠ (⟨0x3b, 0x27⟩ : Cfg).enc ∧ (⟨0x3b, 0x27⟩ : Cfg).sep ≠ LF ∧ (⟨0x3b, 0x27⟩ : Cfg).enc ≠ LF
+    ∧ ([[0x61, 0x0a, 0x62], [0x27]] : Row) ≠ [[]]
+    ∧ pluginNext ⟨0x3b, 0x27⟩ [[0x61]] [0x62, 0x27, 0x3b, 0x63] = some (false, [[0x61, 0x62], [0x63]]) := by decide +kernel
+
+/-- **csv_plugin_ctor.** The constructors: which arguments are refused, and which separator / encapsulator BYTES the
+others select — `csv(string)`: first and second byte of the string (default encapsulator `"`), further bytes ignored, so a
+multi-byte character is split; `csv(int, int)`: the low 8 bits of each integer. -/
+theorem csv_plugin_ctor (c : Ctor) :
+    (ctorCfg c = none ↔ c = .fmt none ∨ c = .fmt (some []) ∨ ∃ s e, c = .codes s e ∧ (s = none ∨ e = none))
+    ∧ (∀ s, ctorCfg (.fmt (some [s])) = some ⟨s, 0x22⟩)
+    ∧ (∀ s e rest, ctorCfg (.fmt (some (s :: e :: rest))) = some ⟨s, e⟩)
+    ∧ (∀ s e, ctorCfg (.codes (some s) (some e)) = some ⟨toChar s, toChar e⟩) := by
+  refine ⟨?_, fun _ => rfl, fun _ _ _ => rfl, fun _ _ => rfl⟩
+  cases c with
+  | default => simp [ctorCfg]
+  | fmt s =>
+    cases s with
+    | none => simp [ctorCfg]
+    | some l =>
+      match l with
+      | [] => simp [ctorCfg]
+      | [x] => simp [ctorCfg]
+      | x :: y :: r => simp [ctorCfg]
+  | codes s e =>
+    cases s with
+    | none => cases e <;> simp [ctorCfg] <;> exact ⟨none, _, ⟨rfl, rfl⟩, Or.inl rfl⟩
+    | some a =>
+      cases e with
+      | none => simp [ctorCfg]; exact ⟨_, none, ⟨rfl, rfl⟩, Or.inr rfl⟩
+      | some b => simp [ctorCfg]
+
+/-- `csv("é;")` = (C3, A9); `csv(300, -1)` = (2C, FF); `csv(44, 300)` = (2C, 2C): separator = encapsulator, outside the
+round-trip theorem; `csv("")`, `csv(null)`, `csv(44, null)` are refused -/
+example : ctorCfg (.fmt (some [0xC3, 0xA9, 0x3B])) = some ⟨0xC3, 0xA9⟩ ∧ ctorCfg (.codes (some 300) (some (-1))) = some ⟨0x2C, 0xFF⟩
+    ∧ ctorCfg (.codes (some 44) (some 300)) = some ⟨0x2C, 0x2C⟩ ∧ ctorCfg (.fmt (some [])) = none ∧ ctorCfg (.fmt none) = none
+    ∧ ctorCfg (.codes (some 44) none) = none := by decide +kernel
+
+/-- **csv_plugin_roundtrip.** Through the plugin, for ANY separator / encapsulator bytes with `sep ≠ enc` (CR, LF, NUL,
+space, bytes ≥ 0x80 allowed — this is the exact side condition, see `csv_roundtrip` and the `decide` witnesses there) and
+any table `T` of strings (null elements count as empty fields) other than the single empty field: `serialize(T)` answers a
+string, and `deserialize` of that string answers FALSE (record complete), clears the error flag and REPLACES the table
+variable by the original fields — every byte of every field, whatever the parser's and the variable's previous state. -/
+theorem csv_plugin_roundtrip (w : World) (t : BTable) (hne : w.cfg.sep ≠ w.cfg.enc) (ht : w.tbl = some t)
+    (hrow : fields t ≠ [[]]) (anyTbl : Option BTable) :
+    (Mod.CsvPlugin.step w .serialize).2 = .str (some (serialize w.cfg (fields t)))
+    ∧ Mod.CsvPlugin.step { w with tbl := anyTbl } (.deserialize (some (serialize w.cfg (fields t))))
+        = ({ w with ps := { w.ps with error := false }, tbl := some ((fields t).map some) }, .bool false) := by
+  refine ⟨by simp [Mod.CsvPlugin.step, ht], ?_⟩
+  simp [Mod.CsvPlugin.step, csv_roundtrip w.cfg hne (fields t) hrow w.ps]
+
+example : (⟨0x00, 0x0a⟩ : Cfg).sep ≠ (⟨0x00, 0x0a⟩ : Cfg).enc
+    ∧ fields [some [0x61, 0x00], none, some [0x0a]] = [[0x61, 0x00], [], [0x0a]] ∧ fields [some [0x61, 0x00], none, some [0x0a]] ≠ [[]] := by
+  decide
+
+end csvplugin
+
 /-! ## utf8
 
 In this module a "code point" is the character's UTF-8 byte sequence packed big-endian into a 32-bit
@@ -182,6 +398,53 @@ example : ValidCps [0x41, 0xE9, 0x20AC, 0x1F600, 0x10FFFF, 0xD7FF, 0xE000] ∧
 /-- The full statement is false: U+0000 (valid UTF-8, accepted by the independent decoder) is dropped. -/
 example : BlocV.Spec.Utf8.decode [0x61, 0x00, 0x62] = some [0x61, 0, 0x62] ∧
     (ofBytes [0x61, 0x00, 0x62]).store = [0x61, 0x62] := by decide +kernel
+
+/-- **decode_illformed.** For EVERY byte string — well-formed or not — the module's decoder holds exactly what the
+independent look-ahead decoder `Spec.Utf8.lenient` ("take a well-formed RFC 3629 sequence, otherwise drop ONE byte")
+produces, with U+0000 removed (recorded finding `C18.utf8_nul_dropped`), each scalar value in the module's packed
+representation. So on ill-formed input the module: emits no replacement character and raises no error; drops an
+invalid lead byte (80..C1, F5..FF); drops a lead together with the continuation bytes already accepted when the next
+byte is outside the RFC 3629 §4 range for its position, and re-reads that byte as the start of a new sequence (the
+dropped continuation bytes cannot start one); drops a truncated sequence at the end of the text. -/
+theorem decode_illformed (bs : List UInt8) :
+    (ofBytes bs).store = ((BlocV.Spec.Utf8.lenient bs).filter (· ≠ 0)).map pack := by
+  have h := (foldl_writeByte bs {}).1
+  simp only [ofBytes]
+  rw [h, emit_bytes]
+  simp [lenientPacked, BlocV.Spec.Utf8.lenient]
+
+/-- **decode_valid_agrees** (the full statement, as far as it is true): for EVERY list of Unicode scalar values — U+0000
+included — the module built from its RFC 3629 encoding holds exactly the list WITHOUT its U+0000 elements (recorded finding
+`C18.utf8_nul_dropped`), each in the packed representation. (`decode_valid_agrees_partial` is the case without U+0000, with
+`rawSize` and parser state.) Uses `lenient_encodeAll`: the independent decoder inverts the independent encoder on all
+scalar values. -/
+theorem decode_valid_agrees (cps : List Nat) (h : ∀ c ∈ cps, isScalar c = true) :
+    (ofBytes (encodeAll cps)).store = (cps.filter (· ≠ 0)).map pack := by
+  rw [decode_illformed]
+  simp only [BlocV.Spec.Utf8.lenient]
+  rw [lenient_encodeAll cps h]
+
+example : (∀ c ∈ [0x41, 0, 0x10FFFF, 0xD7FF, 0], isScalar c = true)
+    ∧ (ofBytes (encodeAll [0x41, 0, 0x10FFFF, 0xD7FF, 0])).store = [0x41, 0xF48FBFBF, 0xED9FBF] := by
+  refine ⟨?_, by decide +kernel⟩
+  intro c hc
+  simp at hc
+  rcases hc with rfl | rfl | rfl | rfl | rfl <;> decide
+
+/-- … and the parser is left in the state the byte-at-a-time machine reaches (mid-sequence after a truncated tail:
+a later `append(string)` can complete the character). -/
+theorem decode_illformed_state (bs : List UInt8) :
+    (ofBytes bs).parser = endState .p0 (bs.map (·.toNat)) := by
+  have h := (foldl_writeByte bs {}).2
+  simpa [ofBytes] using h
+
+/-- non-trivial ill-formed inputs: over-long C0 80, surrogate ED A0 80, F4 90 80 80 (> U+10FFFF), truncated E2 82,
+E2 82 41 (the offending byte is re-read), a stray continuation byte between two characters, F8 -/
+example : (ofBytes [0xC0, 0x80]).store = [] ∧ (ofBytes [0xED, 0xA0, 0x80]).store = []
+    ∧ (ofBytes [0xF4, 0x90, 0x80, 0x80]).store = [] ∧ (ofBytes [0xE2, 0x82]).store = []
+    ∧ (ofBytes [0xE2, 0x82, 0x41]).store = [0x41] ∧ (ofBytes [0x41, 0x80, 0xC3, 0xA9, 0xF8, 0x42]).store = [0x41, 0xC3A9, 0x42]
+    ∧ BlocV.Spec.Utf8.lenient [0x41, 0x80, 0xC3, 0xA9, 0xF8, 0x42] = [0x41, 0xE9, 0x42]
+    ∧ (ofBytes [0xE2, 0x82]).parser = .p2u3 0xE2 0x82 := by decide +kernel
 
 /-- A test of the Spec (not a theorem about all inputs): the independent decoder inverts the encoder at
 the boundary values and rejects over-long forms, surrogates, values above U+10FFFF and truncation. -/
@@ -321,6 +584,123 @@ example : pluginAt (ofBytes [0x61, 0x62, 0x63]) (some (-1)) = .indexRange ∧
     pluginAt (ofBytes [0x61, 0x62, 0x63]) (some (-9223372036854775808)) = .indexRange ∧
     pluginAt (ofBytes [0x61, 0x62, 0x63]) none = .invalidArgs ∧
     pluginAt (ofBytes [0x61, 0x62, 0x63]) (some 2) = .ok 0x63 := by decide +kernel
+
+/-- **utf8_methods_total.** The WHOLE method table of plugin_utf8.cpp (empty, count, rawsize, reserve, clear,
+append(integer), append(string), concat(utf8), string, at, remove, insert(pos, integer), insert(pos, utf8), substr(pos),
+substr(pos, n) — everything but the five table-driven transformations), on every object state that satisfies the
+representation invariant `Inv` (`rawSize` = the bytes `ToStdString` writes; it holds for every constructed object:
+`ofBytes_inv`, `inv_empty`) and with EVERY argument (null, negative, INT64 extremes, the receiver itself or another
+object as utf8 argument): the call answers a value or a BLOC error, keeps the invariant (so `string()` never
+overruns its buffer and `rawSize -= bc` never wraps), and reaches a C++-level failure EXACTLY in the recorded region
+`C18.utf8_reserve_unchecked`: `reserve(n)` with `(size_t) n` above `vector::max_size()` (std::length_error) or above
+what the allocator serves (std::bad_alloc). `hb` says the text fits a `size_t` (an address-space fact). -/
+theorem utf8_methods_total (mem : Nat) (u v : UStr) (op : POp) (hu : Inv u) (hb : u.rawSize < 2 ^ 64) :
+    ((pstep mem u v op).2.isHazard = true ↔ ∃ i, op = .reserve (some i) ∧ (MAX_SIZE < toSizeT i ∨ mem < toSizeT i))
+    ∧ Inv (pstep mem u v op).1 := by
+  cases op with
+  | empty => simp [pstep, PVal.isHazard, hu]
+  | count => simp [pstep, PVal.isHazard, hu]
+  | rawsize => simp [pstep, PVal.isHazard, hu]
+  | reserve n =>
+    cases n with
+    | none => simp [pstep, pluginReserve, PVal.isHazard, hu]
+    | some i =>
+      simp only [pstep, pluginReserve]
+      refine ⟨?_, hu⟩
+      by_cases h1 : MAX_SIZE < toSizeT i
+      · simp [h1, PVal.isHazard]
+      · by_cases h2 : mem < toSizeT i
+        · simp [h1, h2, PVal.isHazard]
+        · simp [h1, h2, PVal.isHazard]
+  | clear => simp [pstep, PVal.isHazard, clear_inv]
+  | append c => cases c <;> simp [pstep, PVal.isHazard, hu, appendCp_inv]
+  | appendL t => cases t <;> simp [pstep, PVal.isHazard, hu, appendBytes_inv]
+  | concat o =>
+    cases o with
+    | none => simp [pstep, PVal.isHazard, hu]
+    | some w => cases w <;> simp [pstep, PVal.isHazard, appendData_inv _ _ hu]
+  | string => simp [pstep, pluginString, toStdString_of_inv u hu, PVal.isHazard, hu]
+  | «at» i =>
+    refine ⟨?_, hu⟩
+    simp only [pstep]
+    have := (utf8_args_total u i none none).1
+    cases h : pluginAt u i <;> simp_all [ofPRes, PVal.isHazard]
+  | remove a0 a1 =>
+    cases a0 <;> cases a1 <;> simp [pstep, pluginRemove, ofPRes, PVal.isHazard, hu, remove_inv _ _ _ hu hb]
+  | insert a0 a1 =>
+    cases a0 <;> cases a1 <;> simp [pstep, pluginInsert, ofPRes, PVal.isHazard, hu, insertCp_inv _ _ _ hu]
+  | insertC a0 o =>
+    cases a0 <;> cases o <;> simp [pstep, pluginInsertC, ofPRes, PVal.isHazard, hu, insertData_inv _ _ _ hu]
+  | substr1 a0 => cases a0 <;> simp [pstep, pluginSubstr1, ofPRes, PVal.isHazard, hu]
+  | substr2 a0 a1 => cases a0 <;> cases a1 <;> simp [pstep, pluginSubstr2, ofPRes, PVal.isHazard, hu]
+
+/-- "the text fits the address space" along a history: `rawSize < 2^64` in every state the history passes through -/
+def Fits (mem : Nat) (v : UStr) : UStr → List POp → Prop
+  | u, [] => u.rawSize < 2 ^ 64
+  | u, op :: ops => u.rawSize < 2 ^ 64 ∧ Fits mem v (pstep mem u v op).1 ops
+
+instance Fits.dec (mem : Nat) (v : UStr) : (u : UStr) → (ops : List POp) → Decidable (Fits mem v u ops)
+  | u, [] => inferInstanceAs (Decidable (u.rawSize < 2 ^ 64))
+  | u, op :: ops => @instDecidableAnd _ _ _ (Fits.dec mem v (pstep mem u v op).1 ops)
+
+/-- **utf8_history_total.** Whole histories: starting from any constructed object, ANY list of method calls with ANY
+arguments (the run stops at the first C++-level failure, as the interpreter does not survive one) keeps the invariant to
+the end, and the only failures that can occur anywhere in it are the two of `reserve` (`std::length_error`,
+`std::bad_alloc`): no out-of-bounds access and no buffer overrun in any reachable state. -/
+theorem utf8_history_total (mem : Nat) (v : UStr) : ∀ (ops : List POp) (u : UStr), Inv u → Fits mem v u ops →
+    (∀ r ∈ (prun mem v u ops).2, r.isHazard = true → r = .foreignLength ∨ r = .foreignAlloc)
+    ∧ Inv (prun mem v u ops).1 := by
+  intro ops
+  induction ops with
+  | nil => intro u hu _; exact ⟨by simp [prun], by simpa [prun] using hu⟩
+  | cons op ops ih =>
+    intro u hu hf
+    obtain ⟨hb, hf'⟩ := hf
+    have hm := utf8_methods_total mem u v op hu hb
+    simp only [prun]
+    by_cases hz : (pstep mem u v op).2.isHazard = true
+    · rw [if_pos hz]
+      refine ⟨?_, hm.2⟩
+      intro r hr _
+      simp only [List.mem_singleton] at hr
+      subst hr
+      obtain ⟨i, rfl, _⟩ := hm.1.mp hz
+      simp only [pstep, pluginReserve] at hz ⊢
+      split
+      · exact Or.inl rfl
+      · split
+        · exact Or.inr rfl
+        · rename_i h1 h2; simp [h1, h2, PVal.isHazard] at hz
+    · rw [if_neg hz]
+      have := ih (pstep mem u v op).1 hm.2 hf'
+      refine ⟨?_, this.2⟩
+      intro r hr hh
+      simp only [List.mem_cons] at hr
+      rcases hr with rfl | hr
+      · exact absurd hh hz
+      · exact this.1 r hr hh
+
+example : Inv (ofBytes [0x61, 0xC3, 0xA9]) ∧ Fits (2 ^ 32) {} (ofBytes [0x61, 0xC3, 0xA9])
+      [.insertC (some 0) (some .self), .remove (some 1) (some (-1)), .reserve (some (-1)), .string]
+    ∧ (prun (2 ^ 32) {} (ofBytes [0x61, 0xC3, 0xA9])
+        [.insertC (some 0) (some .self), .remove (some 1) (some (-1)), .reserve (some (-1)), .string]).2
+      = [.int 2, .bool true, .foreignLength] := by
+  refine ⟨ofBytes_inv _, by decide +kernel, by decide +kernel⟩
+
+/-- the hypotheses hold for every constructed object (any bytes), the region is inhabited (`reserve(-1)`,
+`reserve(2^61)`: std::length_error; `reserve(2^40)` with an allocator serving 2^32 elements: std::bad_alloc), and null /
+negative / huge arguments of the other methods stay outside it; `U.insert(0, U)` doubles the text. -/
+example : Inv (ofBytes [0x61, 0xC3, 0xA9, 0xFF]) ∧ (ofBytes [0x61, 0xC3, 0xA9, 0xFF]).rawSize < 2 ^ 64
+    ∧ (pstep (2 ^ 32) (ofBytes [0x61]) {} (.reserve (some (-1)))).2 = .foreignLength
+    ∧ (pstep (2 ^ 32) (ofBytes [0x61]) {} (.reserve (some 2305843009213693952))).2 = .foreignLength
+    ∧ (pstep (2 ^ 32) (ofBytes [0x61]) {} (.reserve (some 1099511627776))).2 = .foreignAlloc
+    ∧ (pstep (2 ^ 32) (ofBytes [0x61]) {} (.reserve (some 1000000))).2 = .bool true
+    ∧ (pstep (2 ^ 32) (ofBytes [0x61]) {} (.reserve none)).2 = .invalidArgs
+    ∧ (pstep (2 ^ 32) (ofBytes [0x61]) {} (.remove (some (-1)) (some (-9223372036854775808)))).2 = .bool false
+    ∧ (pstep (2 ^ 32) (ofBytes [0x61, 0xC3, 0xA9]) {} (.insertC (some 0) (some .self)))
+        = ({ parser := .p0, store := [0x61, 0xC3A9, 0x61, 0xC3A9], rawSize := 6 }, .int 2) := by
+  refine ⟨ofBytes_inv _, by decide +kernel, by decide +kernel, by decide +kernel, by decide +kernel, by decide +kernel,
+    by decide +kernel, by decide +kernel, by decide +kernel⟩
 
 end utf8
 
